@@ -337,6 +337,13 @@ def run(tier):
     chk.adopt('C01.R8', 'the compared streams are the command\'s bytes '
               'decoded once, and each command runs its own private copy '
               '(shared with C09.R7, C09.R8)', sub9)
+    from . import c06 as _c06
+    sub6 = Check('C06', 'other', tier, [], [])
+    chk.guard(_c06.rule_r8, sub6, prog)
+    chk.adopt('C01.R12', 'the input and output paths the user gave are not '
+              'replaced after parsing (an output path derived from the '
+              'input\'s name can be the input itself, which is then '
+              'overwritten; shared with C06.R8)', sub6)
     sub9b = Check('C09', 'proof', tier, [], [])
     chk.guard(c09.rule_r4, sub9b, prog)
     Check.restrict(sub9b, lambda wh, what: str(what) == 'cmd'
